@@ -45,6 +45,12 @@ impl Overlay {
         Root(self.inner.prev_root)
     }
 
+    /// The commit counter the database had when the base session of this overlay began, if the
+    /// overlay has no parent.
+    pub(super) fn base_commit_count(&self) -> Option<u64> {
+        self.inner.base_commit_count
+    }
+
     /// Check whether the parent of this overlay matches the provided marker.
     /// If the provided marker is `None`, then this checks that this overlay doesn't have a parent.
     pub(super) fn parent_matches_marker(&self, marker: Option<&OverlayMarker>) -> bool {
@@ -81,6 +87,9 @@ impl Overlay {
 struct OverlayInner {
     prev_root: Node,
     root: Node,
+    // The commit counter of the database observed when the session which created this overlay
+    // began. `None` if the overlay has a parent: its position is enforced by the commit marker.
+    base_commit_count: Option<u64>,
     index: Index,
     data: Arc<Data>,
     seqn: u64,
@@ -374,6 +383,27 @@ impl LiveOverlay {
         value_changes: HashMap<KeyPath, ValueChange>,
         rollback_delta: Option<crate::rollback::Delta>,
     ) -> Overlay {
+        self.finish_with_base(
+            prev_root,
+            root,
+            page_changes,
+            value_changes,
+            rollback_delta,
+            None,
+        )
+    }
+
+    /// Like [`Self::finish`], additionally recording the commit counter of the database observed
+    /// when the session began (for overlays without a parent).
+    pub(super) fn finish_with_base(
+        self,
+        prev_root: Node,
+        root: Node,
+        page_changes: HashMap<PageId, DirtyPage>,
+        value_changes: HashMap<KeyPath, ValueChange>,
+        rollback_delta: Option<crate::rollback::Delta>,
+        base_commit_count: Option<u64>,
+    ) -> Overlay {
         let new_seqn = self.parent.as_ref().map_or(0, |p| p.seqn + 1);
 
         // rebuild the index, including the new stuff, and excluding stuff from dead overlays.
@@ -401,6 +431,7 @@ impl LiveOverlay {
                 index,
                 prev_root,
                 root,
+                base_commit_count,
                 data: Arc::new(Data {
                     pages: page_changes,
                     values: value_changes,
